@@ -178,3 +178,178 @@ Proof.
 Qed.
 
 Print Assumptions skip_high_bars.
+
+(* ================================================================== the keyed level: normalize dimmax = skip_high dimmax . normalize (-1) *)
+
+
+(* ------------------------------------------------------------------ 1. environments *)
+Lemma lookup_erase : forall e k k',
+  lookup (erase e k) k' = if k =? k' then None else lookup e k'.
+Proof.
+  intros e k k'. induction e as [|[k0 a] e IH]; simpl.
+  - destruct (k =? k'); reflexivity.
+  - destruct (k =? k0) eqn:E; simpl.
+    + apply Z.eqb_eq in E. subst k0. rewrite IH.
+      destruct (k =? k') eqn:F; [reflexivity|].
+      rewrite Z.eqb_sym, F. reflexivity.
+    + rewrite IH. destruct (k =? k') eqn:F; [|reflexivity].
+      apply Z.eqb_eq in F. subst k'. rewrite E. reflexivity.
+Qed.
+
+Lemma lookupd_erased : forall e k k',
+  lookupd (erased e k) k' = if k =? k' then None else lookupd e k'.
+Proof.
+  intros e k k'. induction e as [|[k0 a] e IH]; simpl.
+  - destruct (k =? k'); reflexivity.
+  - destruct (k =? k0) eqn:E; simpl.
+    + apply Z.eqb_eq in E. subst k0. rewrite IH.
+      destruct (k =? k') eqn:F; [reflexivity|].
+      rewrite Z.eqb_sym, F. reflexivity.
+    + rewrite IH. destruct (k =? k') eqn:F; [|reflexivity].
+      apply Z.eqb_eq in F. subst k'. rewrite E. reflexivity.
+Qed.
+
+Lemma lookup_cons_erase : forall e k a k',
+  lookup ((k, a) :: erase e k) k' = if k' =? k then Some a else lookup e k'.
+Proof.
+  intros. simpl. destruct (k' =? k) eqn:E; [reflexivity|].
+  rewrite lookup_erase. rewrite Z.eqb_sym, E. reflexivity.
+Qed.
+
+(* ------------------------------------------------------------------ 2. the oracle version of skip_op *)
+Definition skip_op' (dimmax : Z) (D : nat -> Z) (o : nop) : nop :=
+  match o with
+  | NIns d bd => if dimmax <? d then NId else o
+  | NRem u => if dimmax <? D u then NId else o
+  | NId => NId
+  end.
+
+Lemma skip_op'_dim_of : forall dimmax s o, skip_op' dimmax (dim_of s) o = skip_op dimmax s o.
+Proof. intros. destruct o; reflexivity. Qed.
+
+(* invariant relating the environment [e1] of the skipping run, [e2] of the full run and the key -> dimension
+   environment [ed] of [keyed_ok_aux] *)
+Definition inv (dimmax : Z) (D : nat -> Z) (e1 e2 : env) (ed : list (Z * Z)) : Prop :=
+  forall k,
+    match lookup e2 k with
+    | Some a => lookupd ed k = Some (D a) /\ lookup e1 k = if dimmax <? D a then None else Some a
+    | None => lookupd ed k = None /\ lookup e1 k = None
+    end.
+
+Lemma tr_bd_agree : forall dimmax D e1 e2 ed d bd, d <= dimmax ->
+  inv dimmax D e1 e2 ed ->
+  forallb (fun b => match lookupd ed b with Some d' => d' =? d - 1 | None => false end) bd = true ->
+  tr_bd e1 bd = tr_bd e2 bd.
+Proof.
+  intros dimmax D e1 e2 ed d bd Hd Hinv. unfold tr_bd.
+  induction bd as [|b bd IH]; simpl; intros H; [reflexivity|].
+  apply andb_true_iff in H. destruct H as [Hb H]. rewrite IH by assumption. f_equal.
+  specialize (Hinv b). destruct (lookup e2 b) as [a|].
+  - destruct Hinv as [H1 H2]. rewrite H1 in Hb. apply Z.eqb_eq in Hb.
+    rewrite H2. destruct (dimmax <? D a) eqn:E; [apply Z.ltb_lt in E; lia | reflexivity].
+  - destruct Hinv as [H1 _]. rewrite H1 in Hb. discriminate.
+Qed.
+
+(* ------------------------------------------------------------------ 3. the generalised statement *)
+Lemma normalize_aux_skip : forall dimmax D, 0 <= dimmax -> forall ops i e1 e2 ed,
+  inv dimmax D e1 e2 ed ->
+  keyed_ok_aux ed ops = true ->
+  (forall j d bd, nth_error (normalize_aux (-1) i e2 ops) j = Some (NIns d bd) -> D (i + j)%nat = d) ->
+  normalize_aux dimmax i e1 ops = map (skip_op' dimmax D) (normalize_aux (-1) i e2 ops).
+Proof.
+  intros dimmax D Hdm. induction ops as [|o ops IH]; intros i e1 e2 ed Hinv Hok HD; [reflexivity|].
+  assert (Hneq : negb (dimmax =? -1) = true).
+  { destruct (dimmax =? -1) eqn:E; [apply Z.eqb_eq in E; lia | reflexivity]. }
+  assert (HDtail : forall e2' t, normalize_aux (-1) i e2 (o :: ops) = t :: normalize_aux (-1) (S i) e2' ops ->
+            forall j d bd, nth_error (normalize_aux (-1) (S i) e2' ops) j = Some (NIns d bd) -> D (S i + j)%nat = d).
+  { intros e2' t Heq j d bd Hj. replace (S i + j)%nat with (i + S j)%nat by lia.
+    apply HD with (bd := bd). rewrite Heq. exact Hj. }
+  destruct o as [k d fv bd | k fv | ].
+  - (* Ins *)
+    simpl in Hok. destruct (lookupd ed k) eqn:Hk; [discriminate|].
+    apply andb_true_iff in Hok. destruct Hok as [Hbd Hok].
+    assert (HDi : D i = d).
+    { specialize (HD O d (tr_bd e2 bd)). rewrite Nat.add_0_r in HD. apply HD. reflexivity. }
+    assert (He2k : lookup e2 k = None /\ lookup e1 k = None).
+    { specialize (Hinv k). destruct (lookup e2 k) as [a|].
+      - destruct Hinv as [H1 _]. rewrite H1 in Hk. discriminate.
+      - destruct Hinv as [_ H2]. split; [reflexivity | exact H2]. }
+    destruct He2k as [He2k He1k].
+    simpl. rewrite Hneq. simpl.
+    destruct (dimmax <? d) eqn:E.
+    + (* skipped *)
+      f_equal. apply IH with (ed := (k, d) :: ed).
+      * intros k'. rewrite lookup_cons_erase. simpl.
+        destruct (k' =? k) eqn:F.
+        -- apply Z.eqb_eq in F. subst k'. rewrite HDi, E. split; [reflexivity | exact He1k].
+        -- exact (Hinv k').
+      * exact Hok.
+      * apply HDtail with (t := NIns d (tr_bd e2 bd)). reflexivity.
+    + apply Z.ltb_ge in E.
+      rewrite (tr_bd_agree dimmax D e1 e2 ed d bd E Hinv Hbd). f_equal.
+      apply IH with (ed := (k, d) :: ed).
+      * intros k'. rewrite !lookup_cons_erase. simpl.
+        destruct (k' =? k) eqn:F.
+        -- rewrite HDi. split; [reflexivity|].
+           destruct (dimmax <? d) eqn:G; [apply Z.ltb_lt in G; lia | reflexivity].
+        -- exact (Hinv k').
+      * exact Hok.
+      * apply HDtail with (t := NIns d (tr_bd e2 bd)). reflexivity.
+  - (* Rem *)
+    simpl in Hok. simpl.
+    pose proof (Hinv k) as Hk.
+    destruct (lookup e2 k) as [a|] eqn:He2k.
+    + destruct Hk as [Hdk He1k]. rewrite He1k. simpl.
+      destruct (dimmax <? D a) eqn:E.
+      * f_equal. apply IH with (ed := erased ed k).
+        -- intros k'. rewrite lookup_erase, lookupd_erased.
+           destruct (k =? k') eqn:F.
+           ++ apply Z.eqb_eq in F. subst k'. split; [reflexivity|]. rewrite He1k. reflexivity.
+           ++ exact (Hinv k').
+        -- exact Hok.
+        -- apply HDtail with (t := NRem a). simpl. rewrite He2k. reflexivity.
+      * f_equal. apply IH with (ed := erased ed k).
+        -- intros k'. rewrite !lookup_erase, lookupd_erased.
+           destruct (k =? k') eqn:F.
+           ++ split; reflexivity.
+           ++ exact (Hinv k').
+        -- exact Hok.
+        -- apply HDtail with (t := NRem a). simpl. rewrite He2k. reflexivity.
+    + destruct Hk as [Hdk He1k]. rewrite He1k. simpl. f_equal.
+      apply IH with (ed := erased ed k).
+      * intros k'. rewrite lookupd_erased.
+        destruct (k =? k') eqn:F.
+        -- apply Z.eqb_eq in F. subst k'. rewrite He2k. split; [reflexivity | exact He1k].
+        -- exact (Hinv k').
+      * exact Hok.
+      * apply HDtail with (t := NId). simpl. rewrite He2k. reflexivity.
+  - (* Nop *)
+    simpl in Hok. simpl. f_equal. apply IH with (ed := ed); auto.
+    apply HDtail with (t := NId). reflexivity.
+Qed.
+
+(* ------------------------------------------------------------------ 4. the theorems *)
+Theorem normalize_is_skip_high : forall dimmax ops, 0 <= dimmax -> keyed_ok ops = true ->
+  normalize dimmax ops = skip_high dimmax (normalize (-1) ops).
+Proof.
+  intros dimmax ops Hd Hok. unfold skip_high.
+  rewrite <- (map_ext _ _ (skip_op'_dim_of dimmax (normalize (-1) ops))).
+  unfold normalize at 1 3.
+  apply normalize_aux_skip with (ed := []).
+  - exact Hd.
+  - intros k. simpl. split; reflexivity.
+  - exact Hok.
+  - intros j d bd Hj. simpl. unfold dim_of, normalize.
+    rewrite (nth_error_nth _ _ NId Hj). reflexivity.
+Qed.
+
+Corollary ignored_dimensions : forall dimmax ops k, 0 <= k < dimmax -> keyed_ok ops = true ->
+  bars_of_dim (normalize dimmax ops) k = bars_of_dim (normalize (-1) ops) k.
+Proof.
+  intros dimmax ops k Hk Hok. rewrite normalize_is_skip_high by (assumption || lia).
+  apply skip_high_bars. exact Hk.
+Qed.
+
+Print Assumptions normalize_is_skip_high.
+Print Assumptions ignored_dimensions.
+
